@@ -18,6 +18,7 @@ type c11Case struct {
 	Lo   int64  `json:"lo,omitempty"`
 	Hi   int64  `json:"hi,omitempty"`
 	A    []int  `json:"alphabet,omitempty"`
+	NoSSSE3 bool `json:"nossse3,omitempty"` // run with the SSSE3 dispatch flag forced off (the row kernels then take the scalar path)
 }
 
 func toG(m lin.M) gf2p16.Matrix {
@@ -229,10 +230,25 @@ func c11Gen(g *core.Gen) {
 		g.Emit(&c11Case{Kind: "structured", N: n})
 	}
 	g.Emit(&c11Case{Kind: "times"})
+	// the same families with the SSSE3 dispatch flag forced off (Matrix row operations then use the scalar kernels)
+	g.Emit(&c11Case{Kind: "all", N: 2, Lo: 0, Hi: 1296, A: full, NoSSSE3: true})
+	for lo := int64(0); lo < 262144; lo += 16384 {
+		g.Emit(&c11Case{Kind: "all", N: 3, Lo: lo, Hi: lo + 16384, A: a3, NoSSSE3: true})
+	}
+	for n := 1; n <= 6; n++ {
+		g.Emit(&c11Case{Kind: "perm", N: n, NoSSSE3: true})
+	}
+	for _, n := range ns {
+		g.Emit(&c11Case{Kind: "structured", N: n, NoSSSE3: true})
+	}
 }
 
 func c11Run(ci interface{}, r *core.Rec) {
 	c := ci.(*c11Case)
+	if c.NoSSSE3 {
+		old := gf2p16.VerifSetUseSSSE3(false)
+		defer gf2p16.VerifSetUseSSSE3(old)
+	}
 	switch c.Kind {
 	case "all":
 		n := c.N
